@@ -2817,7 +2817,7 @@ func normalizeHostMatch(raw string) (string, error) {
 		}
 		return "", fmt.Errorf("wildcard host must be \"*\" or \"*.example.com\"")
 	}
-	host = stripHostPort(host)
+	host = strings.TrimSuffix(stripHostPort(host), ".")
 	if host == "" {
 		return "", fmt.Errorf("invalid host")
 	}
